@@ -133,15 +133,15 @@ class MathShim:
 
     @staticmethod
     def isfinite(x):
-        return True if isinstance(x, SymReal) else math.isfinite(x)
+        return x.isfinite() if isinstance(x, SymReal) else math.isfinite(x)
 
     @staticmethod
     def isnan(x):
-        return False if isinstance(x, SymReal) else math.isnan(x)
+        return x.isnan() if isinstance(x, SymReal) else math.isnan(x)
 
     @staticmethod
     def isinf(x):
-        return False if isinstance(x, SymReal) else math.isinf(x)
+        return x.isinf() if isinstance(x, SymReal) else math.isinf(x)
 
     @staticmethod
     def isclose(a, b, *, rel_tol=1e-9, abs_tol=0.0):
@@ -289,7 +289,7 @@ class NpShim:
 
     # closeness predicates as formulas (A4)
     @staticmethod
-    def _isclose_terms(a, b, rtol, atol):
+    def _isclose_terms(a, b, rtol, atol, equal_nan=False):
         a = np.asarray(a, dtype=object) if _contains_sym(a) else np.asarray(a)
         b = np.asarray(b, dtype=object) if _contains_sym(b) else np.asarray(b)
         rt = lift(np.asarray(rtol, dtype=object).reshape(-1)[0]) if _contains_sym(rtol) else lift(float(np.asarray(rtol).reshape(-1)[0]))
@@ -297,6 +297,12 @@ class NpShim:
         A, B = np.broadcast_arrays(a, b)
         out = np.empty(A.shape, dtype=object)
         for idx in np.ndindex(*A.shape):
+            # additive: a payload element that declares itself NaN (harness/c06.SymNaN) is close to nothing, except to another NaN
+            # under equal_nan=True (NumPy's definition); elements without the marker are unaffected
+            na, nb = getattr(A[idx], "_symx_nan", False), getattr(B[idx], "_symx_nan", False)
+            if na or nb:
+                out[idx] = SymBool(z3.BoolVal(bool(equal_nan and na and nb)))
+                continue
             x, y = lift(A[idx]), lift(B[idx])
             out[idx] = SymBool(zabs(x - y) <= at + rt * zabs(y))
         return out
@@ -304,13 +310,13 @@ class NpShim:
     def isclose(self, a, b, rtol=1e-5, atol=1e-8, equal_nan=False):
         if not (_contains_sym(a) or _contains_sym(b) or _contains_sym(rtol) or _contains_sym(atol)):
             return np.isclose(a, b, rtol=rtol, atol=atol, equal_nan=equal_nan)
-        out = self._isclose_terms(a, b, rtol, atol)
+        out = self._isclose_terms(a, b, rtol, atol, equal_nan)
         return out if out.shape != () else out[()]
 
     def allclose(self, a, b, rtol=1e-5, atol=1e-8, equal_nan=False):
         if not (_contains_sym(a) or _contains_sym(b) or _contains_sym(rtol) or _contains_sym(atol)):
             return np.allclose(a, b, rtol=rtol, atol=atol, equal_nan=equal_nan)
-        out = self._isclose_terms(a, b, rtol, atol)
+        out = self._isclose_terms(a, b, rtol, atol, equal_nan)
         ts = [e.t for e in out.ravel()]
         return SymBool(z3.And(*ts)) if ts else True
 
